@@ -231,6 +231,9 @@ class VcsCannedStream(Stream):
             if not inside:      # started outside the repository
                 return subprocess.CompletedProcess(command, 128, b"", b"fatal: not a repository")
             raw1, raw2 = self._raw(case, lay, below)
+            if kind == "git" and "rev-parse" in args and "--show-toplevel" in args:
+                # the canned repositories have their top at the project root (a root below the top: stream vcsgit)
+                return subprocess.CompletedProcess(command, 0, (lay.root + "\n").encode("utf-8"), b"")
             listing_cmd = {"git": "ls-files", "hg": "status", "jj": "files", "pijul": "list"}[kind]
             if listing_cmd in args:
                 zero = ("-z" in args) if kind == "git" else ("--print0" in args or "-0" in args) if kind == "hg" else False
@@ -238,6 +241,8 @@ class VcsCannedStream(Stream):
                     raw1 = raw1.replace("\0", "\n")
                 return subprocess.CompletedProcess(command, 0, raw1.encode("utf-8"), b"")
             if kind == "git" and "config" in args:
+                if below:       # .gitmodules is a file of the top directory: asked from below, the answer is the top's
+                    raw2 = self._raw(case, lay, ())[1]
                 if "-z" not in args:
                     raw2 = raw2.replace("\n", " ").replace("\0", "\n")
                 return subprocess.CompletedProcess(command, 0 if raw2 else 1, raw2.encode("utf-8"), b"")
@@ -458,8 +463,10 @@ class VcsGitStream(Stream):
             subs = []
             if os.path.isdir(os.path.join(root, "mod")):
                 subs = ["mod"]
-                with open(os.path.join(root, ".gitmodules"), "w") as fp:
-                    fp.write('[submodule "mod"]\n\tpath = mod\n\turl = https://example.com/mod.git\n')
+                # .gitmodules is a file at the top of the work tree and its paths are relative to the top (that is where Git
+                # writes and reads it), also when the project root is a directory below the top
+                with open(os.path.join(repo, ".gitmodules"), "w") as fp:
+                    fp.write('[submodule "mod"]\n\tpath = %s\n\turl = https://example.com/mod.git\n' % os.path.relpath(os.path.join(root, "mod"), repo))
             _git(["init", "-q"], repo)
             allf = []
             for dp, dn, fn in os.walk(repo):
@@ -509,7 +516,11 @@ class VcsGitStream(Stream):
             # the raw outputs, captured from the real commands started in the root, with the user's configuration
             raw1 = _git(["ls-files", "--exclude-standard", "--ignored", "--others", "--directory", "--no-empty-directory", "-z"],
                         root, global_config=gconf).stdout.decode("utf-8")
-            raw2 = _git(["config", "-z", "--file", ".gitmodules", "--get-regexp", r"\.path$"], root, global_config=gconf).stdout.decode("utf-8")
+            raw2 = _git(["config", "-z", "--file", os.path.join(repo, ".gitmodules"), "--get-regexp", r"\.path$"], root, global_config=gconf).stdout.decode("utf-8")
+            # the model reads submodule paths relative to the project root: rebase them from the top of the work tree (os.path.relpath,
+            # the step the tool itself takes after `git rev-parse --show-toplevel`; identity when the root is the top)
+            raw2 = "".join("%s\n%s\0" % (e.split("\n", 1)[0], os.path.relpath(os.path.join(repo, e.split("\n", 1)[1]), root))
+                           for e in raw2.split("\0") if "\n" in e)
             r = _git(["check-ignore", "--stdin", "-z"], root, input=("\0".join(paths)).encode(), global_config=gconf)
             ignored = sorted(x for x in r.stdout.decode().split("\0") if x)
             tracked = sorted(x for x in _git(["ls-files", "-z"], root).stdout.decode().split("\0") if x)
